@@ -144,6 +144,17 @@ def corpus(rng, tier):
                     # exception ("a comma-separated list inside fences is left as a list")
                     cname, ctx = CONTEXTS[1]
                 out.append((loc, ctx.replace("{N}", xml(whole)), ctx.replace("{N}", xml(toks)), cname))
+        # a number with a fraction right in front of the punctuation that ends the row, written with the locale's own
+        # decimal mark (x = 1.5.  /  x = 2,5,): the second mark is not part of the number and does not keep it from folding
+        dec = LOCALES[loc][1]
+        for _ in range(3 if tier == "quick" else 20):
+            parts = gen_number(rng, loc)
+            if not any(k == "p" for k, _ in parts):
+                parts += [("p", dec), ("d", "".join(rng.choice("0123456789") for _ in range(rng.randint(1, 3))))]
+            whole = [("mn", "".join(s_ for _, s_ in parts))]
+            toks = split_tokens(rng, parts, "all")
+            ctx = "<mi>x</mi><mo>=</mo>{N}<mo>%s</mo>" % xml([("x", dec)])[3:-4]
+            out.append((loc, ctx.replace("{N}", xml(whole)), ctx.replace("{N}", xml(toks)), "sentence-own-mark"))
         for adv in ADVERSARIAL:
             out.append((loc, None, adv, "adversarial"))
     return out
